@@ -65,6 +65,9 @@ def gen_cases(rng, tier):
         for c in range(rng.choice([1, 1, 2, 3])):
             npts = rng.randint(1, 6)
             pts = [(rng.uniform(0, 40), rng.uniform(0, 40))]
+            if rng.random() < 0.12:          # a zero-length contour (M p L p), possibly closed, before / between the others
+                ops += poly_ops([pts[0], pts[0]], close=rng.random() < 0.5, grid=rng.choice([64.0, 4.0, 1.0]))
+                continue
             for _ in range(npts - 1):
                 if rng.random() < 0.15:
                     pts.append(pts[-1])   # zero-length segment
@@ -98,7 +101,10 @@ def gen_cases(rng, tier):
         if b2f(d[0]) > 1e8 or b2f(d[0]) < -1e8:
             d[0] = f2b(rng.uniform(-50, 50))
         ops = rand_path_ops(rng, 30, 30, rng.uniform(5, 30), curves=rng.random() < 0.6, grid=16.0)
-        cases.append(("dash_geo", d + [f2b(rng.choice([1.0, 1.0, 0.5, 4.0]))] + ops))
+        if rng.random() < 0.15:   # a zero-length contour first
+            zp = (rng.uniform(0, 40), rng.uniform(0, 40))
+            ops = poly_ops([zp, zp], close=rng.random() < 0.5, grid=16.0) + ops
+        cases.append(("dash_geo", d + [f2b(rng.choice([1.0, 1.0, 0.5, 4.0, 16.0, 64.0]))] + ops))
     return cases
 
 
